@@ -1,5 +1,6 @@
 import Driver.Util
 import RxnModel.Model.Align
+import RxnModel.Generated.Facts
 /-!
 Driver section for C02 (barrier alignment). Header: `M C02 <senders> <batchMaxSize> [<undeployed senders>]`
 (senders `k … k+z-1` call without being among the deployed `SourceRunnerIds`).
@@ -36,6 +37,10 @@ structure DSt where
   /-- `true`: this copy follows the property's spec of a redeploy (`redeploySpec`: batcher emptied, every call in
   flight turned away) instead of the code's (`redeploy`); the only difference between the two copies -/
   specMode : Bool := false
+  /-- callers that are not among the deployed runners are turned away before the alignment decision: always in the
+  spec copy (open finding D69); in the copy of the code exactly when `Operator.HandleEvent` checks the sender
+  (`Facts.c02SenderChecked`, regenerated from the source on every run) -/
+  refuseU : Bool := false
 
 def insSorted (k : Bytes) : List Bytes → List Bytes
   | [] => [k]
@@ -133,8 +138,12 @@ def isReleased : Obs → Bool
   | .released _ => true
   | _ => false
 
+/-- sender `sr` is a caller that is not among the deployed runners -/
+def undeployed (st : DSt) (sr : String) : Bool := st.s.k ≤ natOr sr && natOr sr < st.s.k + st.s.z
+
 def step'' (st : DSt) : List String → DSt × String
   | ["send", sr, "ev", k, p, t] =>
+    if st.refuseU && undeployed st sr then ({ st with keys := insSorted (hexOr k) st.keys }, "refused") else
     let key := hexOr k
     let st := { st with keys := insSorted key st.keys }
     if natOr sr < st.s.k + st.s.z then
@@ -142,16 +151,19 @@ def step'' (st : DSt) : List String → DSt × String
       (st, if o.isEmpty then "gone" else joinWith " " o)
     else (st, "bad-op")
   | ["send", sr, "wm", ts] =>
+    if st.refuseU && undeployed st sr then (st, "refused") else
     if natOr sr < st.s.k + st.s.z then
       let (st, o) := doAct st (.align (natOr sr) (.wm (natOr ts)))
       (st, if o.isEmpty then "gone" else joinWith " " o)
     else (st, "bad-op")
   | ["send", sr, "bar", id] =>
+    if st.refuseU && undeployed st sr then (st, "refused") else
     if natOr sr < st.s.k + st.s.z then
       let (st, o) := doAct st (.align (natOr sr) (.bar (natOr id)))
       (st, if o.isEmpty then "gone" else joinWith " " o)
     else (st, "bad-op")
   | ["send", sr, "done"] =>
+    if st.refuseU && undeployed st sr then (st, "refused") else
     if natOr sr < st.s.k + st.s.z then
       let (st, o) := doAct st (.align (natOr sr) .done)
       (st, if o.isEmpty then "gone" else joinWith " " o)
@@ -166,6 +178,7 @@ def step'' (st : DSt) : List String → DSt × String
     let its := ws.filterMap parseItem
     if its.length != ws.length || its.isEmpty then (st, "bad-op") else
     let st := { st with keys := addKeys st.keys its }
+    if st.refuseU && undeployed st sr then (st, "refused") else
     if natOr sr < st.s.k + st.s.z then
       match its with
       | it :: tl =>
@@ -237,24 +250,44 @@ def step' (st : DSt) (ws : List String) : DSt × String :=
   | some _, "sendb" :: sr :: ws => startBlocked st h (natOr sr) (ws.filterMap parseItem) ws.length
   | some _, _ => (st, "consumer-held")
 
-/-- the model of the code and the spec copy run side by side; they differ only from a redeploy on that found events
-in the batcher or calls past alignment (open finding D45), and only then is an answer tagged -/
-def stepBoth (st : DSt × DSt) (ws : List String) : (DSt × DSt) × String :=
-  let (c, xc) := step' st.1 ws
-  let (sp, xs) := step' st.2 ws
-  -- a redeploy that finds the batcher empty and no call past alignment ends the D45 situation: from here on the
-  -- two copies must agree again, so the spec copy restarts from the code copy (batch tokens may have drifted)
-  let clean := ws == ["redeploy"] && st.1.held.isNone && st.1.s.pending.isEmpty &&
-    (List.range (st.1.s.k + st.1.s.z)).all fun i => match st.1.s.slots i with | some (_, true) => false | _ => true
-  ((c, if clean then { c with specMode := true } else sp),
-   if xc == xs then xc else s!"{xc} #spec {xs} #kf D45")
+/-- the model of the code and the spec copy run side by side. The spec copy differs in two points only: a redeploy
+empties the batcher and turns every call in flight away (`redeploySpec`, open finding D45), and callers that are not
+among the deployed runners are refused (open finding D69). `d45`: the last redeploy found events in the batcher or a
+call past alignment; `d69`: an undeployed caller has acted since the last redeploy. An answer is tagged only while
+one of the two situations holds; a difference outside both is emitted untagged (and reported as unlisted). -/
+structure Both where
+  c : DSt
+  sp : DSt
+  d45 : Bool := false
+  d69 : Bool := false
+
+def stepBoth (st : Both) (ws : List String) : Both × String :=
+  let (c, xc) := step' st.c ws
+  let (sp, xs) := step' st.sp ws
+  let isRedeploy := ws == ["redeploy"] && st.c.held.isNone && !st.c.s.stopped
+  -- a redeploy that finds the batcher empty and no call past alignment starts a clean epoch: the spec copy restarts
+  -- from the code copy (batch tokens may have drifted)
+  let clean := st.c.s.pending.isEmpty &&
+    (List.range (st.c.s.k + st.c.s.z)).all fun i => match st.c.s.slots i with | some (_, true) => false | _ => true
+  let byUndeployed := match ws with
+    | _ :: sr :: _ => (ws.head? == some "send" || ws.head? == some "sendb" || ws.head? == some "go" ||
+        ws.head? == some "cancel" || ws.head? == some "gohold") && undeployed st.c sr
+    | _ => false
+  let d45 := if isRedeploy then !clean else st.d45
+  let d69 := if isRedeploy then false else st.d69 || byUndeployed
+  -- (the answer of the redeploy itself still belongs to the epoch in which the undeployed caller acted)
+  let d69line := d69 || st.d69
+  let d45line := d45 || st.d45
+  let tag := if d69line && (byUndeployed || !d45line) then "D69" else if d45line then "D45" else ""
+  ({ c := c, sp := if isRedeploy && clean then { c with specMode := true, refuseU := true } else sp, d45 := d45, d69 := d69 },
+   if xc == xs then xc else s!"{xc} #spec {xs} #kf {tag}")
 
 def handle (lines : Array String) (i : Nat) (out : Array String) : Nat × Array String :=
   let hdr := words (lines.getD (i - 1) "")
   let k := natOr (hdr.getD 2 "1")
   let b := natOr (hdr.getD 3 "1")
   let z := natOr (hdr.getD 4 "0")
-  runLines stepBoth ({ s := { init k (max b 1) with z := z } },
-                     { s := { init k (max b 1) with z := z }, specMode := true }) lines i out
+  runLines stepBoth { c := { s := { init k (max b 1) with z := z }, refuseU := Facts.c02SenderChecked == 1 },
+                      sp := { s := { init k (max b 1) with z := z }, specMode := true, refuseU := true } } lines i out
 
 end Driver.C02
